@@ -31,7 +31,7 @@ CLAIMS["C04"] = dict(
     category="proof",
     text="Contract proof of the extracted steepest-descent scan: the loop body (outlined) satisfies the property at an arbitrary node for all "
          "elevations/masks/base levels/neighbour lists, and the sweep over any number of nodes preserves it (loop contract over a ghost node); "
-         "donor rows are proved sound, duplicate-free and complete. Neighbour loop unwound to the grid's constant maximum (2, 4; 8 in the thorough tier).",
+         "donor rows are proved sound, duplicate-free and complete. Neighbour loop: unwound completely for 2 (quick) and 4 (thorough) neighbour slots, closed by a loop contract over the slots for 8 (queen raster, thorough tier: 160-430 s).",
     note="Assumes the neighbour contract (C07 postconditions), the slope expression abstracted as a deterministic function of its operands with "
          "bit-precise one-operation sign lemmas, and the donor-row capacity counting argument (stated precondition instance).",
 )
@@ -106,7 +106,7 @@ CLAIMS["C02"] = dict(
     text="Unbounded contract proofs of: never below the input, base-level and masked cells never written (bit-identical), written value = nextafter of "
          "the popped element's elevation (priority flood); the spanning-tree tilt loop's clauses where the sweeps groups are listed. The minimality "
          "clause (filled level = minimax path level, agreement of the variants) needs the heap-order induction and is undecided here.",
-    note="Heap modelled as a bag; the monolithic whole-function proof is in the thorough tier, the quick tier proves the while-rule premises separately.",
+    note="Heap modelled as a bag; the while-rule premises are proved separately (the monolithic whole-function DFCC proof does not finish within an hour and is not registered).",
 )
 CLAIMS["C07"] = dict(
     category="other",
